@@ -30,6 +30,7 @@ fn obs(f: &Full, tp: &Tp) -> Value {
     let circ: Vec<u128> = tp.assets.iter().map(|d| f.w.supply(d)).collect();
     json!({"feeAll": sv(&by(&all.fees)), "burned": sv(&by(&burned.fees)), "col": sv(&col), "circ": sv(&circ),"init": c.initial_amp.to_string(), "future": c.future_amp.to_string(), "start": c.initial_amp_block.to_string(),
         "stop": c.future_amp_block.to_string(), "height": f.w.app.block_info().height.to_string(),
+        "tog": {"d": c.feature_toggle.deposits_enabled, "w": c.feature_toggle.withdrawals_enabled, "s": c.feature_toggle.swaps_enabled},
         "res": sv(&by(&p.assets)), "S": s(p.total_share.u128()), "fee": sv(&by(&fees.fees)), "bal": sv(&bal)})
 }
 
@@ -75,6 +76,21 @@ pub fn run_random(rec: &mut Rec, seed: u64, run: u64, nops: usize) {
         let forced = if step < 2 * climb { Some(step % 2) } else { None };
         let sel = match forced { Some(0) => 0, Some(_) => 50, None => r.gen_range(0..100) };
         match sel {
+            // the three pause switches, set as a triple through the factory
+            0..=44 if forced.is_none() && r.gen_bool(0.15) => {
+                let c: ConfigResponse = f.w.query(&tp.trio, &QueryMsg::Config {}).unwrap();
+                let flip = |r: &mut rand::rngs::StdRng, now: bool| -> bool { match r.gen_range(0..10) { 0..=4 => now, 5..=7 => true, _ => false } };
+                let (d, wd, sw) = (flip(&mut r, c.feature_toggle.deposits_enabled), flip(&mut r, c.feature_toggle.withdrawals_enabled), flip(&mut r, c.feature_toggle.swaps_enabled));
+                let by_owner = r.gen_bool(0.9);
+                let sender = if by_owner { owner.clone() } else { user.clone() };
+                dpre = f.w.digest();
+                rs = f.w.exec(&sender, &f.hub.pool_factory.clone(), &white_whale_std::pool_network::factory::ExecuteMsg::UpdateTrioConfig {
+                    trio_addr: tp.trio.to_string(), owner: None, fee_collector_addr: None, pool_fees: None,
+                    feature_toggle: Some(white_whale_std::pool_network::trio::FeatureToggle { withdrawals_enabled: wd, deposits_enabled: d, swaps_enabled: sw }), amp_factor: None }, &[]);
+                dpost = f.w.digest();
+                name = "settog"; actor = if by_owner { "owner" } else { "user1" };
+                args = json!({"d": d, "w": wd, "s": sw});
+            }
             0..=44 => {
                 let fa: u64 = if forced.is_some() { cur.saturating_mul(10).min(1_000_000) } else { match r.gen_range(0..12) {
                     0 => cur.saturating_mul(10), 1 => cur.saturating_mul(10) + 1, 2 => (cur / 10).max(1), 3 => (cur - 1) / 10, 4 => (cur + 9) / 10,
@@ -201,6 +217,7 @@ pub fn run_random(rec: &mut Rec, seed: u64, run: u64, nops: usize) {
         ev.insert("args".into(), args);
         ev.insert("res".into(), json!(rs.tag()));
         ev.insert("err".into(), jerr(&rs.err()));
+        ev.insert("disabled".into(), json!(rs.err().contains("Operation disabled")));
         ev.insert("dpre".into(), json!(dpre));
         ev.insert("dpost".into(), json!(dpost));
         ev.insert("obs".into(), obs(&f, &tp));
